@@ -540,7 +540,7 @@ def run(sh):
             sh.count('crashed_cases')
             sh.notes.append(f'C14 case crashed: {type(e).__name__}: {e} {traceback.format_exc()[-600:]}')
     # (e) the same model and seed in fresh interpreters with different hash seeds
-    for i in sh.share(16 if sh.tier == 'quick' else 400):
+    for i in sh.share(32 if sh.tier == 'quick' else 480):
         hashseed_case(sh, i)
     # (d) the whole model deep-copied in the middle of the simulation: the copy, continued on its own, and the
     # original, continued afterwards, both end like the run that was never copied
@@ -748,7 +748,17 @@ def hashseed_case(sh, i):
     import subprocess
     import tempfile
     seed = core.stable_int(sh.seed, 'C14hash', i) % (1 << 30)
-    spec = modelgen.generate(seed, ['routing', 'general', 'resources', 'faults'][i % 4])
+    hash_seeds = ('0', '1', '4242')
+    if i % 4 == 3:
+        spec = modelgen.generate_pool_race(seed)
+        hash_seeds = ('0', '1', '2', '3', '4242', '77')
+    elif i % 2:
+        # several pools, machines needing two of them at once, many waiters: the order in which waiters are served when
+        # several pools change at one instant must not come from a hash table
+        spec = modelgen.generate(seed, ['resources', 'resfaults'][(i // 2) % 2],
+                                 overrides={'n_resources': (2, 3), 'res_cap': (1, 1), 'n_sources': (2, 3)})
+    else:
+        spec = modelgen.generate(seed, ['routing', 'general', 'faults', 'batching'][(i // 2) % 4])
     spec['horizon'] = [sum(spec['horizon'])]
     spec.pop('between', None)
     if i % 2:
@@ -760,7 +770,7 @@ def hashseed_case(sh, i):
     try:
         json.dump(case, open(path, 'w'))
         outs = []
-        for hs in ('0', '1', '4242'):
+        for hs in hash_seeds:
             env = dict(os.environ, PYTHONHASHSEED=hs, PYTHONPATH=root + os.pathsep + os.environ.get('PYTHONPATH', ''))
             r = subprocess.run([sys.executable, '-c',
                                 f'from simmon.props import C14; C14.digest_main({path!r})'],
@@ -773,7 +783,7 @@ def hashseed_case(sh, i):
             outs.append(line[0])
         if len(set(outs)) > 1:
             sh.violation('same_seed_differs', f'the same model with seed {seed} ends differently in interpreters started with '
-                         f'PYTHONHASHSEED 0 / 1 / 4242 (digests {[o[7:15] for o in outs]})', case, engine='hashseed')
+                         f'PYTHONHASHSEED {' / '.join(hash_seeds)} (digests {[o[7:15] for o in outs]})', case, engine='hashseed')
         else:
             sh.count('models_compared_across_hash_seeds')
         sh.case_done({'spec_hash': core.case_hash(spec), 'seed': seed, 'hash': True}, True,
